@@ -90,7 +90,7 @@ def run(rep: common.Reporter, tier: str) -> dict:
     docs = [d for d in docs if d['rule']]
     judged = skipped = 0
     with mp.Pool(16) as pool:
-        for j, s, out in pool.imap_unordered(_chunk, list(common.chunked(docs, 300))):
+        for j, s, out in common.gmap(pool, rep, _chunk, list(common.chunked(docs, 300))):
             judged += j
             skipped += s
             for cls, msg, text, lines in out:
